@@ -23,6 +23,10 @@ class Abort(BaseException):
     pass
 
 
+class SelfDeadlock(Exception):
+    """the main thread (sequential set-up / probe) tried to re-acquire a non re-entrant cache lock"""
+
+
 class SchedLock:
     """Scheduler-aware replacement for the per-cache lock."""
 
@@ -126,7 +130,7 @@ class Sched:
 
     def block(self, me):
         if me < 0:
-            raise RuntimeError("main thread blocked on the cache lock")
+            raise SelfDeadlock("main thread blocked on the cache lock")
         self.blocked_acquires += 1
         self.state[me] = "blocked"
         to = self.pick(me)
